@@ -21,7 +21,7 @@ const c13Rule = "generated concurrent programs (2-6 clients x 1-6 operations: pu
 	"oracle = Go race detector; non-trivial = >=2 clients touched the same repository concurrently and the program reached >=3 distinct handler kinds; distinct = hash of the program"
 
 var c13Kinds = []string{"putTag", "putDigest", "putArt", "putArt", "delTag", "delDigest", "getTag", "getMan", "getRefs", "getRefsFiltered", "listTags", "upload", "uploadChunked", "uploadChunked", "sessionAbandon",
-	"newRepoPush", "newRepoPush", "newRepoRead", "newRepoTags", "collect", "mount"}
+	"newRepoPush", "newRepoPush", "newRepoRead", "newRepoTags", "collect", "mount", "freshBurst", "freshBurst"}
 
 func c13Property(t *rapid.T, st *Stats) {
 	dirStore := rapid.Bool().Draw(t, "dirStore")
